@@ -1,7 +1,8 @@
 #!/bin/sh
 # every thorough check once, five at a time: harness/tools/run_thorough_par.sh [seed]
+# a check that ends without a summary line (crash, exit 2) is reported as BROKEN
 cd "$(dirname "$0")/../.." || exit 2
 seed=${1:-0}
 ./check C08 --seed $seed >/dev/null 2>&1
 printf '%s\n' C01 C05 C10 C02 C04 C03 C07 C09 C06 C12 C13 C08 C11 C14 C15 C16 C17 C18 C19 C20 | \
-  xargs -P 5 -I{} sh -c "./check {} --tier thorough --seed $seed 2>&1 | grep -E '^(VIOLATION|C[0-9][0-9] \[)' | cut -c1-220; true"
+  xargs -P 5 -I{} sh -c "out=\$(./check {} --tier thorough --seed $seed 2>&1); rc=\$?; echo \"\$out\" | grep -E '^(VIOLATION|C[0-9][0-9] \[)' | cut -c1-220; echo \"\$out\" | grep -qE '^{} \[' || echo \"{} BROKEN: no summary line, exit \$rc: \$(echo \"\$out\" | tail -1 | cut -c1-160)\"; true"
